@@ -16,6 +16,11 @@ func (w *World) MakeSyncMessage(slot common.Slot, bbr common.Root, vi common.Val
 	return &altair.SyncCommitteeMessage{Slot: slot, BeaconBlockRoot: bbr, ValidatorIndex: vi, Signature: w.C.Sign1(signer, common.ComputeSigningRoot(bbr, dom))}
 }
 
+// MakeSyncMessageDom: the same under an explicit domain.
+func (w *World) MakeSyncMessageDom(slot common.Slot, bbr common.Root, vi common.ValidatorIndex, signer KeyNum, dom common.BLSDomain) *altair.SyncCommitteeMessage {
+	return &altair.SyncCommitteeMessage{Slot: slot, BeaconBlockRoot: bbr, ValidatorIndex: vi, Signature: w.C.Sign1(signer, common.ComputeSigningRoot(bbr, dom))}
+}
+
 func (g *Gen) syncCase(what string, v *View, subnet uint64, m *altair.SyncCommitteeMessage) string {
 	f := NewFacts(v)
 	if e := f.ByBlockSlot(m.BeaconBlockRoot, m.Slot); e != nil {
@@ -166,6 +171,10 @@ func (g *Gen) genSyncMessagesAt(sc *Scenario, at []HeadAt) {
 			// signature
 			g.syncCase("sig-other-key", v, subnet, w.MakeSyncMessage(cur, head.Root, vi, k+1, common.DOMAIN_SYNC_COMMITTEE))
 			g.syncCase("sig-wrong-domain", v, subnet, w.MakeSyncMessage(cur, head.Root, vi, k, common.DOMAIN_BEACON_ATTESTER))
+			if adj, ok := w.AdjacentForkEpoch(w.Spec.SlotToEpoch(cur)); ok {
+				// the right domain type under the fork version of the neighbouring epoch
+				g.syncCase("sig-domain-of-adjacent-fork", v, subnet, w.MakeSyncMessageDom(cur, head.Root, vi, k, w.DomainAt(common.DOMAIN_SYNC_COMMITTEE, adj)))
+			}
 			{
 				m := *honest
 				m.Signature = garbageSig(10)
@@ -247,34 +256,42 @@ func bitvector(bits []bool) altair.SyncCommitteeSubnetBits {
 }
 
 type ContribOpts struct {
-	Slot        common.Slot
-	Root        common.Root
-	Sub         uint64
-	Bits        []bool
-	Signers     []KeyNum
-	Aggregator  common.ValidatorIndex
-	AggKey      KeyNum
-	SelSlot     common.Slot
-	SelSub      uint64
-	SelDT       common.BLSDomainType
-	OuterDT     common.BLSDomainType
-	ContribDT   common.BLSDomainType
-	MutateAfter func(m *altair.ContributionAndProof)
+	Slot       common.Slot
+	Root       common.Root
+	Sub        uint64
+	Bits       []bool
+	Signers    []KeyNum
+	Aggregator common.ValidatorIndex
+	AggKey     KeyNum
+	SelSlot    common.Slot
+	SelSub     uint64
+	SelDT      common.BLSDomainType
+	OuterDT    common.BLSDomainType
+	ContribDT  common.BLSDomainType
+	// when set: the epoch whose fork version the respective domain is computed under (nil = the epoch of the slot)
+	ContribEp, SelEp, OuterEp *common.Epoch
+	MutateAfter               func(m *altair.ContributionAndProof)
 }
 
 func (w *World) MakeContribution(o ContribOpts) *altair.SignedContributionAndProof {
 	ep := w.Spec.SlotToEpoch(o.Slot)
+	or := func(p *common.Epoch, e common.Epoch) common.Epoch {
+		if p != nil {
+			return *p
+		}
+		return e
+	}
 	var sig common.BLSSignature
 	if len(o.Signers) == 0 {
 		sig = infinitySig()
 	} else {
-		sig = w.C.Sign(o.Signers, common.ComputeSigningRoot(o.Root, w.DomainAt(o.ContribDT, ep)))
+		sig = w.C.Sign(o.Signers, common.ComputeSigningRoot(o.Root, w.DomainAt(o.ContribDT, or(o.ContribEp, ep))))
 	}
 	ct := altair.SyncCommitteeContribution{Slot: o.Slot, BeaconBlockRoot: o.Root, SubcommitteeIndex: view.Uint64View(o.Sub), AggregationBits: bitvector(o.Bits), Signature: sig}
 	sd := altair.SyncAggregatorSelectionData{Slot: o.SelSlot, SubcommitteeIndex: view.Uint64View(o.SelSub)}
-	sel := w.C.Sign1(o.AggKey, common.ComputeSigningRoot(sd.HashTreeRoot(hFn), w.DomainAt(o.SelDT, w.Spec.SlotToEpoch(o.SelSlot))))
+	sel := w.C.Sign1(o.AggKey, common.ComputeSigningRoot(sd.HashTreeRoot(hFn), w.DomainAt(o.SelDT, or(o.SelEp, w.Spec.SlotToEpoch(o.SelSlot)))))
 	msg := altair.ContributionAndProof{AggregatorIndex: o.Aggregator, Contribution: ct, SelectionProof: sel}
-	outer := w.C.Sign1(o.AggKey, common.ComputeSigningRoot(msg.HashTreeRoot(w.Spec, hFn), w.DomainAt(o.OuterDT, ep)))
+	outer := w.C.Sign1(o.AggKey, common.ComputeSigningRoot(msg.HashTreeRoot(w.Spec, hFn), w.DomainAt(o.OuterDT, or(o.OuterEp, ep))))
 	if o.MutateAfter != nil {
 		o.MutateAfter(&msg)
 	}
@@ -470,6 +487,13 @@ func (g *Gen) genContributionsAt(sc *Scenario, at []HeadAt) {
 			g.contribCase("contribution-sig-missing-signer", v, mk(func(o *ContribOpts) { o.Signers = o.Signers[1:] }))
 			g.contribCase("contribution-sig-extra-signer", v, mk(func(o *ContribOpts) { o.Bits[0] = false }))
 			g.contribCase("contribution-sig-wrong-domain", v, mk(func(o *ContribOpts) { o.ContribDT = common.DOMAIN_BEACON_ATTESTER }))
+			if adj, ok := w.AdjacentForkEpoch(ep); ok {
+				// the right domain types under the fork version of the neighbouring epoch
+				g.contribCase("contribution-sig-domain-of-adjacent-fork", v, mk(func(o *ContribOpts) { o.ContribEp = &adj }))
+				g.contribCase("selection-proof-domain-of-adjacent-fork", v, mk(func(o *ContribOpts) { o.SelEp = &adj }))
+				g.contribCase("outer-sig-domain-of-adjacent-fork", v, mk(func(o *ContribOpts) { o.OuterEp = &adj }))
+				g.contribCase("all-sigs-domain-of-adjacent-fork", v, mk(func(o *ContribOpts) { o.ContribEp, o.SelEp, o.OuterEp = &adj, &adj, &adj }))
+			}
 			if head.Parent != nil && w.Spec.SlotToEpoch(head.Parent.Slot) >= w.Spec.ALTAIR_FORK_EPOCH {
 				g.contribCase("honest-for-parent-root", v, mk(func(o *ContribOpts) { o.Root = head.Parent.Root }))
 			}
